@@ -221,8 +221,16 @@ func (h *Handler) Handle(req, resp dhcpv6.DHCPv6) (dhcpv6.DHCPv6, bool) {
 
 		// Assign a new lease to satisfy the request
 		var newLeases []lease
+		// Whether this IA_PD was already answered from the client's existing leases
+		servedFromLeases := len(iapdResp.Options.Options) > 0
 		for i, prefix := range hints {
 			if satisfied.Test(uint(i)) {
+				continue
+			}
+			if servedFromLeases && len(prefix.Prefix.IP) == 0 && len(prefix.Prefix.Mask) == 0 {
+				// A fully empty hint asks for whatever the client has, and the leases
+				// it has were just given to this IA_PD: allocating on top of them would
+				// take one more block out of the pool on every retransmission
 				continue
 			}
 
